@@ -139,6 +139,7 @@ func cmdMuxRun(args []string) int {
 	engName := fs.String("engine", "memkv", "engine")
 	fs.Parse(args)
 	kb.QuietLogs()
+	backend.VerifSetRetryIntervals(0, time.Millisecond)
 	f, err := os.Open(*in)
 	if err != nil {
 		fmt.Println(err)
